@@ -9,6 +9,7 @@ package main
 //	core/provider/json.go              (*JSONAmmoDecoder).Decode    -> paths
 //	core/provider/queue.go             (*AmmoQueue).Acquire         -> paths
 //	components/providers/grpc/provider.go (*Provider).Run, (*Provider).Acquire -> paths
+//	components/providers/http/provider/provider.go (*Provider).Run     -> paths (the deferred close of Sink comes first)
 //
 // What the paths mean is decided in Lean: lean/Pandora/Bridge/C05Prov.lean.
 
@@ -69,5 +70,10 @@ func c05provExtra(t *tr) string {
 		{"Provider", "Acquire", "srcGrpcAcquire"},
 	}, watch)
 	t.errs = append(t.errs, g.errs...)
+	h := &tr{pkg: load("github.com/yandex/pandora/components/providers/http/provider"), known: map[string]string{}, translating: map[string]bool{}}
+	c05provEmit(&b, h, "components/providers/http/provider", [][3]string{
+		{"Provider", "Run", "srcHttpRun"},
+	}, map[string]string{"close:*": "", "Close": "", "InitMiddleware": "", "loadAmmo": "", "runPreloaded": "", "runFullScan": ""})
+	t.errs = append(t.errs, h.errs...)
 	return b.String()
 }
